@@ -234,6 +234,12 @@ for _ in range(N):
          lambda: num2(V3CoreLib.get_token_amounts(upool, pinfo, s, Lq)))
     case("uc_close_position", f"unicore_close_position NumCtx.py {li(d0)} {li(d1)} {li(lo_t)} {li(up_t)} {li(Lq)} {li(s)}", "shRR",
          lambda: num2(V3CoreLib.close_position(upool, pinfo, Lq, s)))
+    # a position's liquidity held as a Decimal (after a partial removal): the products with it round
+    Ld = rng.choice([Decimal(Lq), Decimal(rng.randint(1, 10**40)), rand_dec()])
+    case("uc_token_amounts_dliq", f"unicore_get_token_amounts_dliq NumCtx.py {li(d0)} {li(d1)} {li(lo_t)} {li(up_t)} {li(s)} {lr(Ld)}", "shRR",
+         lambda: num2(V3CoreLib.get_token_amounts(upool, pinfo, s, Ld)))
+    case("uc_close_position_dliq", f"unicore_close_position_dliq NumCtx.py {li(d0)} {li(d1)} {li(lo_t)} {li(up_t)} {lr(Ld)} {li(s)}", "shRR",
+         lambda: num2(V3CoreLib.close_position(upool, pinfo, Ld, s)))
     x_at = rng.choice([rand_dec(), Decimal(rng.randint(0, 10**24)), -rand_dec(-3, 8, 6)])
     case("from_atomic_dec", f"uni_from_atomic_unit_dec NumCtx.py {lr(x_at)} {li(d0)}", "shR", lambda: from_atomic_unit(x_at, d0))
     # update_fee: ticks around a range so that every branch (inside, same side, crossing up/down/over, touching a bound) is met
